@@ -22,7 +22,7 @@ META = {
     'design_ref': '3.3',
 }
 
-NEG = [('tie_first', 'Inv_C03_Nearest'), ('circle_noN', 'Inv_C03_Nearest'), ('idx_line', 'Inv_C03_Nearest'),
+NEG = [('tie_first', 'Inv_C03_Nearest'), ('tie_same_index', 'Inv_C03_NoTieAssigned'), ('circle_noN', 'Inv_C03_Nearest'), ('idx_line', 'Inv_C03_Nearest'),
        ('falsy_index', 'Inv_C03_Exact'), ('getitem_noexpand', 'Inv_C03_Nearest'), ('eager_expand_gated', 'Inv_C03_Nearest'),
        ('stale_ext', 'Inv_C03_Nearest')]
 NEG_INVS = ['Inv_C03_Nearest', 'Inv_C03_NoTieAssigned', 'Inv_C03_Exact', 'Inv_C03_Lookup', 'Inv_C03_Parse']
